@@ -167,7 +167,11 @@ func TestVerifC15Schedules(t *testing.T) {
 				}
 				for i, pv := range e.Panics() {
 					if pv != nil {
-						r.Observation("panic in a handler thread (not judged by C15): "+sc.Name, map[string]any{"thread": i, "panic": fmt.Sprint(pv)[:200]})
+						msg := fmt.Sprint(pv)
+						if len(msg) > 200 {
+							msg = msg[:200]
+						}
+						r.Observation("panic in a handler thread (not judged by C15): "+sc.Name, map[string]any{"thread": i, "panic": msg})
 					}
 				}
 				if e.Deadlock {
